@@ -1,3 +1,5 @@
 import DicomModel.AuditTool
 import DicomModel.Props.C04
+import DicomModel.Props.C04Ref
 #audit_module DicomModel.Props.C04
+#audit_module DicomModel.Props.C04Ref
